@@ -186,6 +186,9 @@ def check_scenario(ctx, sc):
     if [uref(u) for u in run.builder.potential_inputs] != [list(r) for r in potential] or \
             [uref(u) for u in run.builder.excluded_inputs] != [list(r) for r in excluded]:
         ctx.violation("build() modified the caller's potential / excluded lists", sc, "unchanged", "changed")
+    if S.lists_changed(run):
+        ctx.violation("build() re-ordered or emptied a pool of the caller (potential / excluded list, or a list the chain "
+                      "context handed out)", sc, run.lists_before, run.lists_after)
     for e in log:
         if e.get("pool_before") is not None and e["pool_before"] != e["pool_after"]:
             ctx.violation("a selection strategy modified the pool list it was given", sc, e["pool_before"], e["pool_after"])
@@ -272,6 +275,44 @@ def corpus():
     ]
 
 
+def check_plutus(ctx, sc):
+    """a Plutus scenario (script spend / mint with automatic or explicit collateral, candidates reachable as input, potential
+    input and address UTxO): the C09 clauses judged on a build that also runs the collateral search"""
+    from checks import c13
+    c13._install()
+    run = S.run(sc, sign=False)
+    del c13.RECORDS[:]
+    ctx.count("plutus:" + ("error:" + run.error if run.error else "built"))
+    if run.pool_snapshot_before != run.pool_snapshot_after:
+        changed = [k for k in run.pool_snapshot_before if run.pool_snapshot_before[k] != run.pool_snapshot_after.get(k)]
+        ctx.violation("build() modified UTxO objects of the caller's pool", sc, "unchanged", changed)
+    ch = S.lists_changed(run)
+    if ch:
+        ctx.violation("build() re-ordered or emptied a pool of the caller (potential / excluded list, or a list the chain "
+                      "context handed out)", sc, {k: run.lists_before[k] for k in ch}, {k: run.lists_after.get(k) for k in ch})
+    if not run.error:
+        umap = {u["id"]: (u["txid"], int(u["ix"])) for u in sc["utxos"]}
+        explicit = {umap[o["u"]] for o in sc["ops"] if o["op"] in ("add_input", "script_input") and o.get("u") in umap}
+        permitted = set(umap.values())
+        excluded = {umap[o["u"]] for o in sc["ops"] if o["op"] == "exclude"}
+        B = L.Body(run.body.to_cbor())
+        ins = B.inputs
+        if len(set(ins)) != len(ins):
+            ctx.violation("the body names the same input twice", sc, "distinct inputs", ins)
+        bad = [r for r in ins if r not in permitted]
+        if bad:
+            ctx.violation("an input comes from none of the permitted sources", sc, "UTxOs of the scenario", bad)
+        if [r for r in ins if r in excluded]:
+            ctx.violation("an excluded UTxO is spent", sc, "no excluded input", [r for r in ins if r in excluded])
+        missing = [r for r in explicit if r not in ins]
+        if missing:
+            ctx.violation("an explicitly added input is missing from the body", sc, sorted(explicit), ins)
+        canon = sorted(ins, key=lambda r: (bytes.fromhex(r[0]), r[1]))
+        if ins != canon:
+            ctx.violation("inputs are not emitted in the ledger's canonical order (transaction id, index)", sc, canon, ins)
+    ctx.case(sc)
+
+
 def run(ctx):
     ctx.rule = ("wallets of 2..12 UTxOs over two addresses with overlapping explicit / potential / address / excluded "
                 "subsets, UTxOs listed twice, addresses registered twice, 9 selector chains (both strategies, injected "
@@ -288,10 +329,16 @@ def run(ctx):
             check_scenario(ctx, gen_multiround(rng))
         else:
             check_scenario(ctx, gen_scenario(rng))
+    # Plutus scenarios: the collateral search walks the inputs, the potential inputs and the context's UTxOs as well
+    from checks import c13
+    for i in range(ctx.budget(120, 3000)):
+        ctx.count("family:plutus-collateral")
+        check_plutus(ctx, {**c13.gen_scenario(rng, i, "full"), "c09": "plutus"})
 
 
 def replay(ctx, data):
+    one = lambda sc: check_plutus(ctx, sc) if sc.get("c09") == "plutus" else check_scenario(ctx, sc)
     if "input" in data:
-        check_scenario(ctx, data["input"])
+        one(data["input"])
     for d in data.get("correspondence", []):
-        check_scenario(ctx, d["input"])
+        one(d["input"])
